@@ -46,6 +46,16 @@ def neighbour_tasks(n, count, nchunks, seed, per_anchor=60):
     return [("neigh", n, [lab], per_anchor, seed * 1000 + 900 + i) for i, lab in enumerate(picks)]
 
 
+def tablerep_tasks(n, nchunks, seed, frac=1.0):
+    """The library's own representatives: for every (configuration, class id) the graph state of the graph that the
+    lookup table stores for that class (read through the public lookup API), with two different sign patterns requested
+    one after the other and the first one again."""
+    rnd = random.Random(seed * 13 + n)
+    pairs = [(c, i) for c in oconn.configs_for(n) for i in range(oconn.NUM_CLASSES[n]) if rnd.random() < frac]
+    rnd.shuffle(pairs)
+    return [("tablereps", n, ch, seed * 1000 + 700 + k) for k, ch in enumerate(chunks(pairs, nchunks))]
+
+
 FMT_CYCLE = ("str+", "str", "mat", "mat3", "circuit")
 HOSTILE = ("heavy", "canon", "reversed", "random", "random", "random")
 
@@ -107,6 +117,32 @@ def iter_cases(task):
                     m.update(conn=c, fmt=("graph" if m.get("graph_state") else FMT_CYCLE[k % len(FMT_CYCLE)]),
                              stratum="member%d" % n, label=label)
                     yield m
+    elif kind == "tablereps":
+        _, n, pairs, seed = task
+        rnd = random.Random(seed)
+        from htstabilizer import circuit_lookup
+        for k, (c, i) in enumerate(pairs):
+            try:
+                gid = int(circuit_lookup.stabilizer_circuit_lookup(n, c, i).graph_id)
+            except Exception:           # noqa: BLE001
+                continue
+            if not 0 <= gid < (1 << (n * (n - 1) // 2)):
+                continue
+            label = lcorbit.orbit_table(n)[gid]
+            base = ws.graph_circuit_gates(gid, n)
+            variants = []
+            for _ in range(2):
+                flips = [("z", (q,)) for q in range(n) if rnd.getrandbits(1)]
+                circ = base + flips
+                from ..oracle.pauli import state_of
+                gens = state_of(circ, n)
+                if k % 2:
+                    gens = groups.random_presentation(gens, n, rnd)
+                variants.append({"n": n, "gens": gens, "circuit": circ, "code": gid, "graph_state": False, "conn": c,
+                                 "fmt": ("str+", "mat3", "circuit", "str")[k % 4], "stratum": "table-representative%d" % n, "label": label})
+            yield dict(variants[0])
+            yield dict(variants[1])
+            yield dict(variants[0])
     elif kind == "neigh":
         _, n, labels, per_anchor, seed = task
         rnd = random.Random(seed)
